@@ -1,5 +1,9 @@
 REG = dict(
+    # Props/C06.lean imports OpdaGen.CertAll (section `shipped`: C06 o C19 for the regenerated table), so a build failure
+    # caused by regenerated data is a broken proof obligation, not an infrastructure error
+    certificates=True,
     uses_table=True,
+    build_timeout=3000,
     harnesses=["corr_C06"],
     timeout=dict(quick=900, thorough=7200),
     trusted_base=[
@@ -17,7 +21,10 @@ REG = dict(
         "of the property's tolerance) to the oracle instead",
         "mpmath 1.3.0 (tanh-sinh quadrature, ncdf/npdf at 30 digits) as the independent Spec oracle; the two integrals agree to "
         "< 1e-20 on every cross-checked case (recorded in the evidence)",
-        "tools/translate_table.py (JSON -> Lean bit patterns) for the shipped approximation table the model reads",
+        "tools/translate_table.py (JSON -> Lean bit patterns for the Float model, exact rationals for tableQ) for the shipped "
+        "approximation table; the shipped-table theorems are about tableQ cast to R (tableR), the Float model reads the bit "
+        "patterns of the same file (C19's correspondence ties both to the JSON by exact evaluation); tools/make_cert.py is "
+        "NOT trusted (it proposes subdivisions; the kernel checks them)",
     ],
     assumptions=[
         "a <= b finite, c in 1..10, o >= 0 with o/(b-a) in {0} u [1e-9, 1e4], y in [a-9o, b+9o] u {+-inf} (the property's domain)",
@@ -33,11 +40,17 @@ TEXT = dict(
           "over R the code's upward recursion IS the Gaussian partial-moment recursion and the convolution identity "
           "int_0^1 Phi((t-x)/s) d(x^(c/2)) = Phi((t-1)/s) + int_0^1 x^(c/2) dN(t,s^2) holds for every c>=1, so for even c "
           "Model = Spec exactly (cdf both shapes, pdf), for odd c Model = sum over pieces of int p_i dN, within sup|x^k - p| of "
-          "the Spec; in the noiseless regime the returned noise-free law is within 0.4*c*o/(b-a) of its convolution with the "
+          "the Spec (cdf convex and concave; (b-a)*pdf for odd c>=3 within (c/2)*sup|x^k - p|); END TO END WITH THE SHIPPED TABLE "
+          "(tableQ regenerated from _approximations.json on every run, cast to R; C19's 53 kernel-checked certificates discharge "
+          "every hypothesis on the pieces): for every odd c in {1,3,5,7,9}, both shapes, every scale of the series regime and "
+          "EVERY real y, |cdf - Spec| <= 1.02*max_error of the entry the scale o/(b-a) selects (uniform form: of the row), and "
+          "for odd c in {3,..,9} |(b-a)*pdf - density| <= (c/2)*1.02*max_error of the selected entry of row c-2; for c in {7,9} "
+          "this IS the property's 2.5e-5 (cdf) and for c=9 its 1e-4 (pdf), in exact real arithmetic; in the noiseless regime the returned noise-free law is within 0.4*c*o/(b-a) of its convolution with the "
           "noise (c>=2). The model is tied to the code on every run (Float, jitter-calibrated allowance, both sides of "
           "every switch point) and the property's own thresholds are evaluated against an mpmath convolution oracle.",
     note="Partial: the 2.5e-5 / 1e-4 / 0.2 / 5e-5 figures and the c=1 noiseless constant 0.83 are numerical facts decided by "
-         "correspondence + oracle on every run, not theorems (the provable uniform bound for odd c is sup|x^k-p| <= 1.02*max_error, "
-         "up to 8e-4); the Chebyshev fallback's and the normal regime's accuracy, the downward step for k=-1/2 and float rounding "
+         "correspondence + oracle on every run, not theorems in general (the proved bound for odd c with the shipped table is 1.02*max_error of the "
+         "selected entry, 2.5e-7..8.1e-4: it implies the 2.5e-5 only for c in {7,9} and the small-scale entries of c in {1,3,5}; "
+         "for the pdf (c/2)*1.02*max_error, implying 1e-4 for c=9); the pdf of c=1 (order -1/2) is not covered by a theorem; the Chebyshev fallback's and the normal regime's accuracy, the downward step for k=-1/2 and float rounding "
          "are compared only.",
 )
